@@ -61,6 +61,8 @@ typedef struct wres {
 	char     outcome[128];
 	char     clause[160];
 	char     msg[1024];
+	char     soft_clause[160]; // recorded violation that did not end the run
+	char     soft_msg[600];
 	int      loglen;
 	char     log[LOGSZ];
 	cprec    rec[MAXCP];
@@ -856,6 +858,20 @@ vs_fail(const char *clause, const char *fmt, ...)
 	child_exit(10);
 }
 
+// record a violation but let the execution continue (used where a known
+// defect would otherwise cut off the exploration behind it)
+void
+vs_soft_fail(const char *clause, const char *fmt, ...)
+{
+	va_list ap;
+	va_start(ap, fmt);
+	if (W && !W->soft_clause[0]) {
+		snprintf(W->soft_clause, sizeof(W->soft_clause), "%s", clause);
+		vsnprintf(W->soft_msg, sizeof(W->soft_msg), fmt, ap);
+	}
+	va_end(ap);
+}
+
 const char *
 __asan_default_options(void)
 {
@@ -1026,6 +1042,7 @@ run_one(const vx_cfg *cfg, const item *it, wres *w, int errfd, int watchdog)
 	w->cases = 0;
 	w->steps = w->switches = w->io_calls = 0;
 	w->outcome[0] = w->clause[0] = w->msg[0] = 0;
+	w->soft_clause[0] = w->soft_msg[0] = 0;
 	w->loglen = 0;
 	w->log[0] = 0;
 	if (ftruncate(errfd, 0) != 0) {
@@ -1264,6 +1281,22 @@ worker(const vx_cfg *cfg, int wi)
 
 		char sig[200] = "", msg[600] = "", rpath[256] = "";
 		int  bad = 0;
+		if (rc == 0 && w->soft_clause[0]) {
+			// completed, but recorded a (soft) violation on the way
+			snprintf(sig, sizeof(sig), "%s", w->soft_clause);
+			snprintf(msg, sizeof(msg), "%s", w->soft_msg);
+			slock();
+			int known = sig_known(sig);
+			sunlock();
+			if (!known) {
+				read_err(errfd, err, 1 << 16);
+				write_replay(cfg, &cur, sig, msg, w, err, rpath,
+				    sizeof(rpath));
+			}
+			slock();
+			record_sig(sig, msg, rpath, cur.ndev, 1);
+			sunlock();
+		}
 		if (rc == 9) {
 			slock();
 			S->diverged++;
@@ -1832,7 +1865,9 @@ replay_file(const vx_cfg *cfg)
 	printf("replay %s scenario=%s rc=%d outcome=%s\n--- log ---\n%s--- "
 	       "stderr ---\n%s\n",
 	    G.replay, scen, rc, w->outcome, w->log, err);
-	if (rc != 0) {
+	if (rc != 0 || w->soft_clause[0]) {
+		if (w->soft_clause[0])
+			printf("soft violation %s: %s\n", w->soft_clause, w->soft_msg);
 		printf("VIOLATION property=%s replay=%s\n", cfg->prop, G.replay);
 		exit(1);
 	}
